@@ -349,7 +349,13 @@ func armorReplay(t *testing.T, jd *judge, casesPath string) {
 		case rt:
 			jd.count("model_pessimistic") // the model says this header map does not survive, the code returned it intact
 		case allSafe && distinct:
-			jd.viol("armor-roundtrip", "armor.Encode then armor.Decode does not return the same type, headers and body", det)
+			sig := "armor-roundtrip"
+			for _, h := range hdrs {
+				if h.V == "" { // regression of /repo 91fc6da keeps the signature of finding C46-H1
+					sig = "armor-header-roundtrip:empty-value"
+				}
+			}
+			jd.viol(sig, "armor.Encode then armor.Decode does not return the same type, headers and body", det)
 		case !distinct:
 			// two headers whose keys collide after parsing: order dependent, not judged
 		default:
